@@ -1,2 +1,103 @@
-//! C10 driver (auto-despawn reference counting): filled in below.
-pub fn main(_args: &[String]) { eprintln!("c10 driver not built yet"); std::process::exit(2); }
+//! C10 driver: one op sequence per line (`sp:e pr:g:e cl:g db:g de:g gc ds:e dr:e par:e:p`), executed on a real World
+//! with the crate's AutoDespawner; every real drop of a signal happens on a freshly spawned worker thread.
+//! Prints, per line, the live entities (static ids, sorted) after every operation.
+use bevy::prelude::*;
+use bevy_cobweb::prelude::*;
+use std::collections::HashMap;
+
+fn alive_list(world: &World, map: &HashMap<u32, Entity>) -> String
+{
+    let mut v: Vec<u32> = map.iter().filter(|(_, e)| world.get_entity(**e).is_ok()).map(|(k, _)| *k).collect();
+    v.sort();
+    v.iter().map(|x| x.to_string()).collect::<Vec<_>>().join(",")
+}
+
+/// true if `x` is `e` or hangs below `e` through parents that are alive
+fn reaches(world: &World, mut x: Entity, e: Entity) -> bool
+{
+    let mut fuel = 10_000;
+    loop
+    {
+        if x == e { return true; }
+        fuel -= 1;
+        if fuel == 0 { return false; }
+        let Some(p) = world.get_entity(x).ok().and_then(|r| r.get::<Parent>().map(|p| p.get())) else { return false; };
+        if world.get_entity(p).is_err() { return false; }
+        x = p;
+    }
+}
+
+pub fn run_line(line: &str) -> String
+{
+    let mut app = App::new();
+    app.setup_auto_despawn();
+    let mut map: HashMap<u32, Entity> = HashMap::new();
+    let mut live: HashMap<u32, Vec<AutoDespawnSignal>> = HashMap::new();
+    let mut dropping: HashMap<u32, Vec<AutoDespawnSignal>> = HashMap::new();
+    let mut used: std::collections::HashSet<u32> = Default::default();
+    let mut out: Vec<String> = Vec::new();
+    let num = |s: &str| s.parse::<u32>().unwrap();
+    for op in line.split_whitespace()
+    {
+        let p: Vec<&str> = op.split(':').collect();
+        let world = app.world_mut();
+        match p.as_slice()
+        {
+            ["sp", e] => { let e = num(e); if !map.contains_key(&e) { let ent = world.spawn_empty().id(); map.insert(e, ent); } }
+            ["pr", g, e] =>
+            {
+                let (g, e) = (num(g), num(e));
+                if !used.contains(&g)
+                {
+                    used.insert(g);
+                    let ent = map.get(&e).copied().unwrap_or(Entity::from_raw(0x7F00_0000 + e));
+                    let sig = world.resource::<AutoDespawner>().prepare(ent);
+                    live.entry(g).or_default().push(sig);
+                }
+            }
+            ["cl", g] => { let g = num(g); if let Some(v) = live.get_mut(&g) { if let Some(s) = v.first() { let c = s.clone(); v.push(c); } } }
+            ["db", g] =>
+            {
+                let g = num(g);
+                if let Some(v) = live.get_mut(&g)
+                {
+                    if v.len() > 1 { let s = v.pop().unwrap(); std::thread::spawn(move || drop(s)).join().unwrap(); }
+                    else if v.len() == 1 { let s = v.pop().unwrap(); dropping.entry(g).or_default().push(s); }
+                }
+            }
+            ["de", g] =>
+            {
+                let g = num(g);
+                if let Some(v) = dropping.get_mut(&g) { for s in v.drain(..) { std::thread::spawn(move || drop(s)).join().unwrap(); } }
+            }
+            ["gc"] => garbage_collect_entities(world),
+            ["ds", e] => { if let Some(ent) = map.get(&num(e)) { if world.get_entity(*ent).is_ok() { world.despawn(*ent); } } }
+            ["dr", e] => { if let Some(ent) = map.get(&num(e)) { if let Ok(em) = world.get_entity_mut(*ent) { em.despawn_recursive(); } } }
+            ["par", e, p] =>
+            {
+                if let (Some(e), Some(p)) = (map.get(&num(e)).copied(), map.get(&num(p)).copied())
+                {
+                    if world.get_entity(e).is_ok() && world.get_entity(p).is_ok() && !reaches(world, p, e)
+                    {
+                        world.entity_mut(e).set_parent(p);
+                    }
+                }
+            }
+            _ => panic!("bad op {op}"),
+        }
+        out.push(alive_list(app.world(), &map));
+    }
+    out.join(" | ")
+}
+
+pub fn main(args: &[String])
+{
+    for f in args
+    {
+        let text = std::fs::read_to_string(f).unwrap();
+        let lines: Vec<String> = text.lines().map(|l| {
+            std::panic::catch_unwind(|| run_line(l)).unwrap_or_else(|_| "panic".to_string())
+        }).collect();
+        std::fs::write(format!("{f}.impl.log"), lines.join("\n") + "\n").unwrap();
+    }
+}
